@@ -49,6 +49,7 @@ def run(R):
              'ndarray values are concrete (numpy is C): the solver only chooses which one; non-numeric ndarrays are excluded '
              '(_convert_from_json refuses them by design)',
              'ReferenceGenome lives in a registry-only backend stub; parsimonious stand-in is installed but unused here',
+             'HailType.__hash__ (43 + hash(str(self))) is replaced by a deterministic checksum of the same string: CrossHair makes hash(str) symbolic',
              'CrossHair 0.0.110 path exploration is exhaustive when it reports "Confirmed over all paths"')
     R.extra['trusted_base'] = ['CrossHair/z3', 'harness/C32_json.py value builder, wire() and eq() oracle']
     mods = []
